@@ -68,7 +68,7 @@ theorem stepL {env : Env} {file : AFile} {G : List String} {P : Prog} {F : GFile
           (.ite (.un .not .bool (.var (gid cv) .bool)) [.brk] none)
           (.ok (D1 ++ updateG gρ (gid cv) (.bool true), .normal) gw1) := stmt_ite_false_none hcond
       -- the loop body proper, in effect mode
-      have hrel1 : EnvRel Γ ρ (D1 ++ updateG gρ (gid cv) (.bool true)) := hrel.go_agree (fun y ty hy => by
+      have hrel1 : EnvRel env Γ ρ (D1 ++ updateG gρ (gid cv) (.bool true)) := hrel.go_agree (fun y ty hy => by
         obtain ⟨_, _, _, h2, _, _⟩ := hrel.1 y ty hy
         rw [lookup_append_right (fun h => hD1disj _ h (key_of_lookup_some h2))]
         exact lookup_update_ne _ (fun e => htne y ty hy e.symm) _)
@@ -99,7 +99,7 @@ theorem stepL {env : Env} {file : AFile} {G : List String} {P : Prog} {F : GFile
         rw [show D2 ++ (D1 ++ updateG gρ (gid cv) (GVal.bool true)) = (D2 ++ D1) ++ updateG gρ (gid cv) (GVal.bool true) by simp] at hn
         simp only [popTo, pop_append (D2 ++ D1) _ gρ (length_update _ _ _)] at hn
         -- next iteration
-        have hrel' : EnvRel Γ ρ (updateG gρ (gid cv) (.bool true)) := hrel.go_agree (fun y ty hy =>
+        have hrel' : EnvRel env Γ ρ (updateG gρ (gid cv) (.bool true)) := hrel.go_agree (fun y ty hy =>
           lookup_update_ne _ (fun e => htne y ty hy e.symm) _)
         have hinv' : GInv Bad (A ++ (GStmt.ite (.un .not .bool (.var (gid cv) .bool)) [.brk] none :: B))
             (updateG gρ (gid cv) (.bool true)) := hinv.keys_eq (keys_update _ _ _)
